@@ -62,6 +62,9 @@ int libwifi_get_wifi_frame(struct libwifi_frame *fi, const unsigned char *frame,
 
         fi->flags |= LIBWIFI_FLAGS_RADIOTAP_PRESENT;
         fi->radiotap_info = malloc(sizeof(struct libwifi_radiotap_info));
+        if (fi->radiotap_info == NULL) {
+            return -ENOMEM;
+        }
         memcpy(fi->radiotap_info, &rtap_info, sizeof(struct libwifi_radiotap_info));
     }
 
